@@ -249,6 +249,18 @@ func (t *Object) Resolve(field *Field, args map[string]interface{}) (result inte
 	return
 }
 
+// metaMatch reports whether rt is the Go type bound to the object type. When
+// no Go type has been bound yet the @go directive, or without one the type
+// name, decides whether rt becomes the bound type.
+func (t *Object) metaMatch(rt reflect.Type) (match bool, bound bool) {
+	if rt == nil {
+		return false, true
+	}
+	meta, _ := t.metaCheck(rt)
+
+	return meta == rt, meta != nil
+}
+
 func (t *Object) metaCheck(rt reflect.Type) (reflect.Type, error) {
 	t.mu.Lock()
 	defer t.mu.Unlock()
